@@ -820,3 +820,61 @@ func resolveLocal(info *types.Info, body ast.Node, e ast.Expr) ast.Expr {
 	}
 	return e
 }
+
+
+// ReachingDefs: the right-hand sides of the assignments to local variable obj that can reach point at (no other
+// assignment to obj in between), on paths that respect avoidEdge. ok=false if a definition without a usable
+// right-hand side (tuple assignment, range variable, inc/dec) reaches.
+func (r *RuleCtx) ReachingDefs(obj types.Object, at Pt, avoidEdge func(b *cfgBlock, i int) bool) (defs []ast.Expr, ok bool) {
+	info := r.Info
+	ok = true
+	isDef := func(q Pt) bool { return q.Node() != nil && assignsObj(info, q.Node(), obj) }
+	for _, dp := range r.F.Points() {
+		n := dp.Node()
+		if n == nil {
+			continue
+		}
+		var rhs ast.Expr
+		assigned := false
+		switch s := n.(type) {
+		case *ast.AssignStmt:
+			for i, l := range s.Lhs {
+				if objOf(info, l) == obj {
+					assigned = true
+					if len(s.Rhs) == len(s.Lhs) && (s.Tok == token.ASSIGN || s.Tok == token.DEFINE) {
+						rhs = s.Rhs[i]
+					}
+				}
+			}
+		case *ast.ValueSpec:
+			for i, nm := range s.Names {
+				if info.Defs[nm] == obj {
+					assigned = true
+					if i < len(s.Values) {
+						rhs = s.Values[i]
+					}
+				}
+			}
+		default:
+			if assignsObj(info, n, obj) {
+				assigned = true
+			}
+		}
+		if !assigned {
+			continue
+		}
+		if _, f := r.F.Reach(Query{From: []Pt{dp}, Target: func(q Pt) bool { return q == at }, Avoid: func(q Pt) bool { return q != at && isDef(q) }, AvoidEdge: avoidEdge}); !f {
+			continue
+		}
+		// the definition itself must be reachable in this world
+		if _, f := r.F.Reach(Query{From: r.Entry(), Inclusive: true, Target: func(q Pt) bool { return q == dp }, AvoidEdge: avoidEdge}); !f {
+			continue
+		}
+		if rhs == nil {
+			ok = false
+			continue
+		}
+		defs = append(defs, rhs)
+	}
+	return defs, ok
+}
